@@ -1,6 +1,15 @@
 package c01
 
 import (
+	"fmt"
+	"math"
+	"math/rand"
+	"regexp"
+	"strconv"
+	"strings"
+
+	"github.com/robfig/soy/data"
+
 	"verif/core"
 )
 
@@ -38,4 +47,66 @@ func SpecialFamily(ctx *core.Ctx) {
 	}
 	Judge(ctx, cases)
 	ctx.Extra["F8_special_cases"] = len(cases)
+}
+
+var reJSNumber = regexp.MustCompile(`^-?(\d+(\.\d+)?|\d(\.\d+)?e[+-]\d+)$`)
+
+// FloatTextFamily (F9): floats whose text the model does not compute (the
+// exponent forms below 1e-6 and from 1e21 on, and long positional fractions).
+// The language's number-to-text is the shortest decimal that reads back as the
+// same number; a NECESSARY condition that needs no model of the algorithm is
+// checked on the real output: it is a JavaScript number literal and it reads
+// back (strconv.ParseFloat) to exactly the value printed. This part of C01 is
+// decided outside the TLA+ model (TLC has 32-bit integers, no floats); C04
+// compares the same values with the generated JavaScript's text.
+func FloatTextFamily(ctx *core.Ctx) {
+	r := rand.New(rand.NewSource(ctx.Seed))
+	vals := []float64{1e-10, 1e-7, 1.5e-7, 9.999e-7, math.Pow(2, -33), math.Pow(2, -60), 5e-324, 2.2250738585072014e-308, 1e21, 1e22, 1e30, 1.5e21, 123456789e20,
+		1.7976931348623157e308, 1e100, 1e-100, 1e-20, 1e20, 1e-6, 0.1, 0.2 + 0.1, 1.0 / 3, 2.0 / 3, 100.0 / 7, 1e15 + 0.5, 123456789.123456789, 4.35, 0.000001234, 1e300 * 10}
+	for i := 0; i < ctx.Pick(300, 20000); i++ {
+		f := math.Float64frombits(r.Uint64())
+		if math.IsNaN(f) || math.IsInf(f, 0) {
+			continue
+		}
+		vals = append(vals, f)
+		vals = append(vals, math.Pow(10, float64(r.Intn(80)-40))*float64(1+r.Intn(9999)))
+	}
+	comp, err, _ := core.Compile([]core.File{{Name: "t.soy", Text: "{namespace t}\n/** @param f */\n{template .m autoescape=\"false\"}\n{$f}|{$f + ''}|{-$f}|{[$f]}\n{/template}\n"}}, nil)
+	if err != nil {
+		ctx.ToolError("float text family does not compile: %v", err)
+		return
+	}
+	n := 0
+	for _, f := range vals {
+		if math.IsInf(f, 0) || f == 0 {
+			continue
+		}
+		res := comp.Render("t.m", data.Map{"f": data.Float(f)}, nil)
+		ctx.AddEvals(1)
+		n++
+		if res.Err != nil {
+			ctx.Violation(core.Sig{Family: "F9-float-text", Feature: "unexpected-error"}, fmt.Sprintf("printing the float %v failed: %v", f, res.Err), map[string]interface{}{"float_bits": math.Float64bits(f)})
+			continue
+		}
+		parts := strings.Split(res.Out, "|")
+		if len(parts) != 4 {
+			ctx.Violation(core.Sig{Family: "F9-float-text", Feature: "wrong-shape"}, fmt.Sprintf("float %v rendered %q", f, res.Out), map[string]interface{}{"float_bits": math.Float64bits(f)})
+			continue
+		}
+		want := []float64{f, f, -f, f}
+		for k, p := range parts {
+			if k == 3 {
+				p = strings.TrimSuffix(strings.TrimPrefix(p, "["), "]")
+			}
+			back, perr := strconv.ParseFloat(p, 64)
+			switch {
+			case !reJSNumber.MatchString(p):
+				ctx.Violation(core.Sig{Family: "F9-float-text", Feature: "not-a-number-literal"}, fmt.Sprintf("float %v printed as %q (position %d), not a number in the language's format", f, p, k), map[string]interface{}{"float_bits": math.Float64bits(f), "out": res.Out})
+			case perr != nil || back != want[k]:
+				ctx.Violation(core.Sig{Family: "F9-float-text", Feature: "text-denotes-another-number"}, fmt.Sprintf("float %v printed as %q (position %d), which reads back as %v", want[k], p, k, back), map[string]interface{}{"float_bits": math.Float64bits(f), "out": res.Out})
+			}
+		}
+		ctx.Distinct(fmt.Sprint("F9:", math.Float64bits(f)))
+	}
+	ctx.Extra["F9_float_text_cases"] = n
 }
